@@ -16,7 +16,7 @@ ENGINE_MODEL_DEPS = ["Model/MachineCheck.v"]
 SPECS = {
     "C01": dict(
         level="proof",
-        props_deps=["Proofs/Promise.v", "Proofs/Trampoline.v"],
+        props_deps=["Proofs/Promise.v", "Proofs/Trampoline.v", "Proofs/FuelMono.v"],
         model_deps=ENGINE_MODEL_DEPS,
         trusted=ENGINE_TRUSTED,
         assumptions=["programs that build cyclic terms are outside the quantifier (the engine dies on them); such cases are dropped and counted",
